@@ -19,3 +19,15 @@ func simSetYield(permille uint32)
 // seeded scheduling point with the given probability (per mille); 0 switches
 // it off. Plans of the race/deadlock property set it from a knob.
 func SetLockYield(permille int) { simSetYield(uint32(permille)) }
+
+//go:linkname simCounters runtime.simCounters
+func simCounters() (uint64, uint64)
+
+// RuntimeCounters: positions of the runtime's deterministic streams.
+func RuntimeCounters() (uint64, uint64) { return simCounters() }
+
+//go:linkname simSetTrace runtime.simSetTrace
+func simSetTrace(on bool)
+
+// TraceDraws switches the runtime's draw trace on or off (debugging aid).
+func TraceDraws(on bool) { simSetTrace(on) }
